@@ -84,6 +84,9 @@ func TestVerifC07Dedup(t *testing.T) {
 		add(h.HTTPAcks > 0, "sct-verified-over-http")
 		add(st.CacheRollbacks > 0, "cache-lost-or-rolled-back")
 		add(st.LegacyTables > 0, "legacy-table")
+		add(st.GiantRounds > 0, "round-of-more-than-11000-entries")
+		add(st.Evictions > 0, "eviction")
+		add(st.PoolSize > 0, "bounded-pool")
 		add(st.ToolRuns > 0, "recompute-tool")
 		add(st.FailedPools > 0 || st.FatalRounds > 0, "failed-round")
 		dups := len(s.model) - len(h.firstOccurrences(int64(len(s.model))))
